@@ -39,7 +39,12 @@ const QUALITY_REPORT_INTERVAL: Duration = Duration::from_millis(200);
 /// Number of old checksums to keep in memory
 pub const MAX_CHECKSUM_HISTORY_SIZE: usize = 32;
 
+#[cfg_attr(ggrs_verif, allow(unreachable_code))]
 fn millis_since_epoch() -> u128 {
+    #[cfg(ggrs_verif)]
+    {
+        return instant::verif_epoch_millis();
+    }
     #[cfg(not(target_arch = "wasm32"))]
     {
         std::time::SystemTime::now()
